@@ -568,7 +568,10 @@ type rangeVerdict struct {
 	raw      string
 }
 
-func runRange(v *variant, bt *builtTries, a pAction, first *felt.Felt) (rv rangeVerdict) {
+// runRange runs one claim. For trie2 the proof comes from `prover`: the in-memory trie (hashed before
+// GetRangeProof when the step says cached - the production order, proof nodes then carry their cached
+// hash - or never hashed) or the trie reopened from the database (what a node serving state proves on).
+func runRange(v *variant, bt *builtTries, a pAction, first *felt.Felt, prover *trie2.Trie) (rv rangeVerdict) {
 	defer func() {
 		if p := recover(); p != nil {
 			rv = rangeVerdict{raw: "panic: " + fmt.Sprint(p)}
@@ -602,7 +605,7 @@ func runRange(v *variant, bt *builtTries, a pAction, first *felt.Felt) (rv range
 	var ps *trie2.ProofNodeSet
 	if !a.Whole {
 		ps = trie2.NewProofNodeSet()
-		if err := bt.t2.GetRangeProof(first, last, ps); err != nil {
+		if err := prover.GetRangeProof(first, last, ps); err != nil {
 			return rangeVerdict{raw: "GetRangeProof: " + err.Error()}
 		}
 	}
@@ -754,26 +757,42 @@ func TestProofReplay(t *testing.T) {
 					if s.A.First.J < in.H {
 						counts[fmt.Sprintf("range-first-inside-edge-%s-run%d", s.A.First.Dir, s.A.First.J)]++
 					}
-					rv := runRange(&v, bt, s.A, first)
-					impl := s.A.Impl
-					switch {
-					case len(rv.raw) > 6 && rv.raw[:6] == "panic:":
-						report(si, fmt.Sprintf("range-proof:panic:%s:%s", impl, s.A.M), "VerifyRangeProof panics on a "+s.Expect+"-class claim ("+s.A.M+") instead of returning a verdict: "+rv.raw, s.Expect, rv.raw)
-					case s.Expect == "accept" && !rv.accepted && len(s.P) == 0:
-						report(si, "range-proof:empty-trie-rejected:"+impl, "the (true) empty claim on the empty trie is rejected: "+rv.raw, "accept", rv.raw)
-					case s.Expect == "accept" && !rv.accepted:
-						report(si, rangeKey(impl, "incomplete", "true-claim-rejected"), "a true range claim is rejected: "+rv.raw, "accept", rv.raw)
-					case s.Expect == "accept" && rv.more != s.More:
-						report(si, rangeKey(impl, "incomplete", "has-more-wrong"), "a true range claim is accepted with a wrong has-more flag", s.More, rv.more)
-					case s.Expect == "reject" && rv.accepted:
-						report(si, rangeKey(impl, "unsound", s.A.M), "a false range claim ("+s.A.M+") is accepted", "reject", "accepted")
-					case s.Expect == "left-edge" && rv.accepted:
-						counts["left-edge-accepted-"+impl]++
-						report(si, "range-proof:left-edge-omission:"+impl,
-							"VerifyRangeProof accepts a claim that omits present keys between `first` and the smallest claimed key (no production caller yet; TODO in core/trie/proof.go:220)",
-							"reject", "accepted")
-					case s.Expect == "left-edge":
-						counts["left-edge-rejected-"+impl]++
+					provers := []*trie2.Trie{bt.t2}
+					if s.A.Impl == "trie2" && s.A.Cached {
+						provers = append(provers, bt.t2db.tr) // database-loaded: resolved nodes carry their hash
+						counts["range-trie2-cached-provers"]++
+					}
+					for pi, prover := range provers {
+						rv := runRange(&v, bt, s.A, first, prover)
+						impl := s.A.Impl
+						switch {
+						case len(rv.raw) > 6 && rv.raw[:6] == "panic:":
+							report(si, fmt.Sprintf("range-proof:panic:%s:%s", impl, s.A.M), "VerifyRangeProof panics on a "+s.Expect+"-class claim ("+s.A.M+") instead of returning a verdict: "+rv.raw, s.Expect, rv.raw)
+						case s.Expect == "accept" && !rv.accepted && len(s.P) == 0:
+							report(si, "range-proof:empty-trie-rejected:"+impl, "the (true) empty claim on the empty trie is rejected: "+rv.raw, "accept", rv.raw)
+						case s.Expect == "accept" && !rv.accepted:
+							report(si, rangeKey(impl, "incomplete", "true-claim-rejected"), "a true range claim is rejected: "+rv.raw, "accept", rv.raw)
+						case s.Expect == "accept" && rv.more != s.More:
+							report(si, rangeKey(impl, "incomplete", "has-more-wrong"), "a true range claim is accepted with a wrong has-more flag", s.More, rv.more)
+						case s.Expect == "reject" && rv.accepted:
+							report(si, rangeKey(impl, "unsound", s.A.M), "a false range claim ("+s.A.M+") is accepted", "reject", "accepted")
+						case s.Expect == "left-edge" && rv.accepted:
+							counts["left-edge-accepted-"+impl]++
+							report(si, "range-proof:left-edge-omission:"+impl,
+								"VerifyRangeProof accepts a claim that omits present keys between `first` and the smallest claimed key (no production caller yet; TODO in core/trie/proof.go:220)",
+								"reject", "accepted")
+						case s.Expect == "left-edge":
+							counts["left-edge-rejected-"+impl]++
+						case s.Expect == "left-edge-aliased" && rv.accepted:
+							counts["left-edge-aliased-accepted-"+impl]++
+							report(si, "range-proof:left-edge-omission:"+impl+":aliased-siblings",
+								"trie2 VerifyRangeProof accepts a left-edge omission with an ABSENT `first` when two sibling subtrees have the same commitment "+
+									"(e.g. {1:5, 18:7, 22:7}, first=16, answer [22]): proofToPath resolves both children to one node object and "+
+									"unsetInternal finds the fork point by pointer inequality", "reject", "accepted")
+						case s.Expect == "left-edge-aliased":
+							counts["left-edge-aliased-rejected-"+impl]++
+						}
+						_ = pi
 					}
 				}
 			}
